@@ -95,7 +95,7 @@ Proof.
   set (st1 := mkD (hs (sp_copy st h)) (slots st) p (null_closes st)).
   assert (Hr1 : nth_error (hs st1) h = Some (mkH (hlib r) (S (refs r)) (closes r))).
   { unfold st1. cbn [hs]. rewrite E. eapply nth_error_setn_eq; eauto. }
-  destruct (sp_drop_spec st1 h _ Hr1) as (_ & _ & _ & _ & _ & E2); simpl; auto; [lia|].
+  destruct (sp_drop_spec st1 h _ Hr1 ltac:(simpl; lia) Hcl') as (_ & _ & _ & _ & _ & E2).
   rewrite E2. unfold st1. cbn [hs hlib refs closes pred]. rewrite E, setn_setn.
   destruct (Nat.eqb (refs r) 0) eqn:E0; [apply Nat.eqb_eq in E0; lia|].
   apply setn_same. rewrite Hr. destruct r; reflexivity.
@@ -198,11 +198,11 @@ Proof.
       * set (st1 := mkD (hs (sp_copy st h)) (slots st) None (null_closes st)).
         assert (Hr1 : nth_error (hs st1) h = Some (mkH (hlib r) (S (refs r)) (closes r))).
         { unfold st1. cbn [hs]. rewrite E. eapply nth_error_setn_eq; eauto. }
-        destruct (sp_drop_spec st1 h _ Hr1) as (S1 & _); simpl; auto; lia.
+        destruct (sp_drop_spec st1 h _ Hr1 ltac:(simpl; lia) Hcl) as (S1 & _). exact S1.
       * set (st1 := mkD (hs (sp_copy st h)) (slots st) None (null_closes st)).
         assert (Hr1 : nth_error (hs st1) h = Some (mkH (hlib r) (S (refs r)) (closes r))).
         { unfold st1. cbn [hs]. rewrite E. eapply nth_error_setn_eq; eauto. }
-        destruct (sp_drop_spec st1 h _ Hr1) as (_ & _ & S3 & _); simpl; auto; lia.
+        destruct (sp_drop_spec st1 h _ Hr1 ltac:(simpl; lia) Hcl) as (_ & _ & S3 & _). exact S3.
   - (* DGet *)
     destruct (slot_empty st i) eqn:Ei; [|destruct (slot_owner st j) as [[?|? ?|?]|]; exact I].
     destruct (slot_owner st j) as [[h|? ?|?]|] eqn:Ej; try exact I.
@@ -316,7 +316,7 @@ Proof.
   set (st1 := mkD (hs (sp_copy st h)) (slots st) None (null_closes st)).
   assert (Hr1 : nth_error (hs st1) h = Some (mkH (hlib r) (S (refs r)) (closes r))).
   { unfold st1. cbn [hs]. rewrite E. eapply nth_error_setn_eq; eauto. }
-  destruct (sp_drop_spec st1 h _ Hr1) as (S1 & S2 & S3 & _); simpl; auto; [lia|].
+  destruct (sp_drop_spec st1 h _ Hr1 ltac:(simpl; lia) Hcl) as (S1 & S2 & S3 & _).
   pose proof (sp_copy_drop st h r Hr Hpos (k_cl _ I) None) as S0. fold st1 in S0.
   f_equal. destruct (sp_drop st1 h) as [a b c d]. simpl in *. subst. reflexivity.
 Qed.
@@ -336,26 +336,25 @@ Qed.
 (* complete histories: after every owner object is destroyed, in whatever order they were created, copied or moved,
    every handle ever opened has been closed exactly once *)
 Lemma d_drop_from_ok n : forall st i, dinv st -> i + n = length (slots st) ->
-  (forall k, i <= k -> k < length (slots st) -> True) ->
   let st' := d_drop_from st i n in
   dinv st' /\ length (slots st') = length (slots st) /\ length (hs st') = length (hs st)
   /\ (forall k, k < i -> nth_error (slots st') k = nth_error (slots st) k)
   /\ (forall k, i <= k -> k < length (slots st) -> nth_error (slots st') k = Some None).
 Proof.
-  induction n as [|n IH]; intros st i I Hlen _; simpl.
-  - repeat split; auto. intros k H1 H2. lia.
+  induction n as [|n IH]; intros st i I Hlen; simpl.
+  - split; [exact I|]. split; [reflexivity|]. split; [reflexivity|]. split; [reflexivity|]. intros k H1 H2. lia.
   - destruct (slot_owner st i) as [o|] eqn:Ho.
     + destruct (drop_slot_ok st i o I Ho) as (I' & Es & _ & El).
       set (st1 := sp_drop (set_slot st i None) (owner_h o)) in *.
       assert (L1 : length (slots st1) = length (slots st)) by (rewrite Es; apply setn_length).
-      destruct (IH st1 (S i) I') as (I2 & L2 & H2 & P2 & Q2); [lia|auto|].
-      repeat split; auto; try lia.
+      destruct (IH st1 (S i) I') as (I2 & L2 & H2 & P2 & Q2); [lia|].
+      split; [exact I2|]. split; [lia|]. split; [lia|]. split.
       * intros k Hk. rewrite P2 by lia. rewrite Es. apply nth_error_setn_ne. lia.
       * intros k Hk1 Hk2. destruct (Nat.eq_dec k i) as [->|Hne].
         -- rewrite P2 by lia. rewrite Es. apply slot_owner_nth in Ho. eapply nth_error_setn_eq; eauto.
         -- apply Q2; lia.
-    + destruct (IH st (S i) I) as (I2 & L2 & H2 & P2 & Q2); [lia|auto|].
-      repeat split; auto.
+    + destruct (IH st (S i) I) as (I2 & L2 & H2 & P2 & Q2); [lia|].
+      split; [exact I2|]. split; [lia|]. split; [lia|]. split.
       * intros k Hk. apply P2. lia.
       * intros k Hk1 Hk2. destruct (Nat.eq_dec k i) as [->|Hne].
         -- rewrite P2 by lia. unfold slot_owner in Ho.
